@@ -477,6 +477,27 @@ def ctxDeregisterP : Prog Int := do
 
 def modDeregisterP (m : ModId) : Prog Int := modDeregCore ctxDeregisterP m
 
+/-! ## Module objects going away (mod.c `module_dtor`) -/
+
+/-- some undelivered message still names `m` as its sender (each holds a reference on the module) -/
+def inFlightFrom (s : St) (m : ModId) : Bool :=
+  s.mods.any fun md =>
+    (md.pipe.getD []).any (fun x => x.sender == some m) ||
+    md.batch.any (fun e => (e.msg.map (·.sender)) == some (some m)) ||
+    md.stash.any (fun e => (e.msg.map (·.sender)) == some (some m))
+
+/-- `module_dtor`: once nothing references a ZOMBIE any more (the user's references are gone — all of them when
+`allDropped` — and no undelivered message names it as sender) the object is freed, and with it the sources that were
+registered on it after its last stop (their AUTOCLOSE descriptors and library-made duplicates are closed) -/
+def reapZombies (s : St) (allDropped : Bool) : St :=
+  (List.range s.mods.length).foldl (fun s m =>
+    match s.mods[m]? with
+    | some md =>
+      if md.state == .zombie && (allDropped || (s.released.contains m && s.unrefd.contains m)) && !inFlightFrom s m then
+        ((md.srcs ++ md.subs).foldl destroySrc s).updMod m fun md => { md with srcs := [], subs := [] }
+      else s
+    | none => s) s
+
 /-! ## Events: priorities and batching (ctx.c `push_evt`) -/
 
 def srcPrio (s : St) (e : Evt) : Option Prio := e.src.bind fun i => (s.srcs[i]?).map (·.prio)
@@ -759,6 +780,13 @@ def findSrc (s : St) (m : ModId) (kind : SrcKind) (key : Nat) (role : Role) : Op
       | none => false
   | none => none
 
+/-- descriptors of the harness pool that the poll set refuses (regular files); a duplicate keeps the property -/
+def unpollable (key : Nat) : Bool := key % 100 ≥ 6
+
+/-- `create_src` with M_SRC_DUP: the source owns a duplicate of the user's descriptor — another descriptor (numbered
+100 + k here), which is closed with the source whatever the user asked for -/
+def dupSrc (x : Src) : Src := if x.dup && x.kind == .fd then { x with key := 100 + x.key, autoclose := true } else x
+
 /-- `add_mod_src` (no token) -/
 def addSrc (s : St) (m : ModId) (x : Src) : St × Int :=
   match findSrc s m x.kind x.key x.role with
@@ -770,6 +798,10 @@ def addSrc (s : St) (m : ModId) (x : Src) : St × Int :=
     -- the registration is rolled back and leaves no trace
     if x.kind == .fd && stateIs s m .running &&
         s.srcs.any (fun y => y.kind == .fd && y.key == x.key && y.polled && y.registered) then (s, EEXIST)
+    -- kernel: regular files cannot be polled (epoll_ctl fails with EPERM; pool descriptors 6 and 7 are regular files);
+    -- rolled back without a trace, a duplicate made on request is closed again
+    else if x.kind == .fd && stateIs s m .running && unpollable x.key then
+      (if x.dup then s.emit (.close (.dup x.key)) else s, EPERM)
     else
     let id := s.srcs.length
     let running := stateIs s m .running
@@ -852,6 +884,14 @@ def apiTell (m r : ModId) (payload : Nat) (af : Bool) : Prog Int :=
         modify fun s => sendMsg s m (some r) none payload af
         pure 0
 
+/-- `count` tells in a row to the same recipient, with consecutive payloads (more than a pipe holds, C02/C04);
+the result is the number of calls that were accepted -/
+def burstP (m r : ModId) (af : Bool) : (count : Nat) → (payload : Nat) → (acc : Int) → Prog Int
+  | 0, _, acc => pure acc
+  | n + 1, p, acc => do
+    let c ← apiTell m r p af
+    burstP m r af n (p + 1) (if c == 0 then acc + 1 else acc)
+
 /-- `strncmp(topic, "LIBMODULE_", 10) == 0` -/
 def isSystemTopic (t : String) : Bool := t.toList.take 10 == "LIBMODULE_".toList
 
@@ -927,7 +967,7 @@ def apiRegSrc (m : ModId) (paramOk : Bool) (x : Src) (prioBits : Nat) : Prog Int
     if prioBits > 1 then pure EINVAL
     else do
       let s ← getSt
-      let (s', r) := addSrc s m x
+      let (s', r) := addSrc s m (dupSrc x)
       setSt s'; pure r
 
 def apiDeregSrc (m : ModId) (paramOk : Bool) (kind : SrcKind) (key : Nat) : Prog Int := do
